@@ -208,4 +208,21 @@ CHECKS = {
                 "started with the last accepted document. Non-trivial: a later valid document omits or shrinks something.",
         "assumptions": COMMON_ASSUME + ["gopkg.in/yaml.v3 and encoding/json render the harness' own config structs faithfully"],
     },
+    "C07": {
+        "quick": 700, "thorough": 30000,
+        "rule": "rapid draws a two-scope configuration (every authenticator/accounter variant of C10; 1 in 3 with a service whose "
+                "configured values cannot be encoded: non-ASCII, 300 bytes, 1 byte, 260 values) and a history of 1..12 requests "
+                "multiplexed over 4 session ids on one connection: authentication scripts (all C10 flavours, continued across steps), "
+                "ASCII login with a 256..65520-byte user name, command and session authorization, accounting with good and bad "
+                "flags, known and unknown users, a well-formed body of another packet type under each header type, truncated/"
+                "corrupted/padded bodies, even/replayed/jumping/restarting sequence numbers, sequence 255, invalid version/type "
+                "octets, oversize length, wrong-key bodies; flags 0/4/1. A wrapping SecretProvider records handler invocations, "
+                "Reply/Write/Next calls. Oracle after every request (server quiescent or connection closed): acceptable request "
+                "(valid header, odd sequence number greater than the session's last, body not a key-mismatch by the model's rule) => "
+                "exactly one handler invocation and exactly one packet (none iff sequence 255), connection open; rejected request => "
+                "no handler invocation, at most one packet, connection closed; GREY bodies may go either way consistently. Plus the "
+                "exported stringy authorizer driven directly with a foreign user. Non-trivial: history has a step other than the "
+                "plain happy paths.",
+        "assumptions": COMMON_ASSUME + ["a handler that panics is C14's finding, not counted here"],
+    },
 }
